@@ -767,3 +767,174 @@ def nested_vocab_sessions(r, T, n_sessions):
         trees = [g.tree(r.randrange(1, 4)) for _ in range(r.randrange(2, 9))]
         sessions.append((cfg, trees, "nested-random"))
     return sessions
+
+
+# ------------------------------------------------------------------ escaped texts and homonymous fields (C06)
+# Additions only.  (a) phrases and words whose text starts / ends with escaped quotes, backslashes and other
+# escaped specials; (b) the SAME relative field name at top level and under an object / nested parent with
+# DIFFERENT analysed-ness and field_options, in the group spelling parent:(name:x) and the dotted spelling, and
+# sessions that reuse one builder across such trees in both orders.
+
+ESCAPED_PHRASES = ['"he said \\"hi\\""', '"\\"hi\\" he said"', '"say \\"hi\\" to him"', '"5\\""', '"\\""',
+                   '"\\"\\""', '"a\\\\"', '"\\\\"', '"\\\\a"', '"a\\:b"', '"\\(x\\)"', '"a\\ "', '"\\ a"',
+                   '"\\"a b\\"~2"', '"x\\" "', '" \\"x"', '"\\+a -b\\!"']
+ESCAPED_WORDS = ['a\\"', '\\"a', '\\"a\\"', 'a\\\\', '\\\\a', '\\+a', 'a\\:', 'a\\:b', '\\(a\\)', 'a\\ b', '\\-a',
+                 'a\\~', 'a\\^2', '\\!', '\\"', 'a\\"b', '\\[1', '5\\"']
+
+HOMONYM_VOCAB = {"name": None, "tag": None, "bio": None,
+                 "author": {"name": None, "bio": None, "tag": None}, "editor": {"name": None, "tag": None}}
+_HV_OBJECTS = ["author.name", "author.bio", "author.tag", "editor.name", "editor.tag"]
+
+HOMONYM_CONFIGS = [
+    # the sub field is a keyword, the top level field of the same name is a text — and the reverse
+    {"not_analyzed_fields": ["author.name", "tag"], "object_fields": _HV_OBJECTS},
+    {"not_analyzed_fields": ["name", "author.tag", "editor.name"], "object_fields": _HV_OBJECTS},
+    {"not_analyzed_fields": ["name", "author.tag"],
+     "nested_fields": {"author": ["name", "bio", "tag"], "editor": ["name", "tag"]}},
+    {"not_analyzed_fields": ["author.name", "editor.tag", "bio"], "default_operator": "must",
+     "nested_fields": {"author": {"name": None, "bio": None, "tag": None}}, "object_fields": ["editor.name", "editor.tag"],
+     "field_options": {"name": {"match_type": "match_phrase"}, "author.name": {"boost": 2},
+                       "author.bio": {"type": "phrase_prefix"}, "editor.name": {"match_type": "match", "x": 1}}},
+    {"not_analyzed_fields": ["name", "tag", "editor.name"],
+     "field_options": {"author.name": {"match_type": "multi_match", "x": 1}, "name": {"x": 2},
+                       "author.tag": {"type": "match_phrase"}, "editor.tag": {"slop": 1}}},
+    {"not_analyzed_fields": ["author.bio"], "match_word_as_phrase": True, "default_field": "name",
+     "object_fields": _HV_OBJECTS},
+]
+
+HOMONYM_QUERIES = [
+    'name:bob', 'author:(name:bob)', 'author.name:bob', 'author:(name:"bob k")', 'author:(name:"bob k"~2)',
+    'name:"bob k"~2', 'editor:(name:bob)', 'editor.name:"bob k"~1', 'tag:x', 'author:(tag:x)', 'editor:(tag:x~1)',
+    'bio:tall', 'author:(bio:tall)', 'author:name:bob', 'author:(name:bob AND bio:tall)',
+    'name:bob AND author:(name:bob AND bio:tall) AND tag:x', 'author:(name:bob) OR name:bob OR editor:(name:bob)',
+    'author:(tag:[1 TO 5]) tag:[1 TO 5]', 'author:(name:bo?) name:bo?', 'author:(name:"5\\"") AND name:"5\\""',
+    'NOT author:(name:bob) AND name:bob', 'author:(name:(bob OR "bob k"~2))', 'name:bob^2 author:(name:bob^2)',
+]
+
+
+class HomonymGen:
+    """supported trees over HOMONYM_VOCAB: terms (plain and escaped words, phrases, fuzzy, proximity, ranges) on
+    leaf fields reached by the group spelling parent:(name:x), the bare chain parent:name:x or the dotted spelling,
+    several of them per tree"""
+
+    def __init__(self, r, T, names=0.05):
+        self.r, self.T, self.names = r, T, names
+
+    def fin(self, node):
+        if self.r.random() < self.names:
+            setattr(node, "_luqum_name", self.r.choice(NAMES))
+        return node
+
+    def term(self):
+        T, r = self.T, self.r
+        x = r.random()
+        if x < 0.3:
+            return self.fin(T.Word(r.choice(["bob", "x", "tall", "bo?", "*", "1"])))
+        if x < 0.45:
+            return self.fin(T.Word(r.choice(ESCAPED_WORDS)))
+        if x < 0.6:
+            return self.fin(T.Phrase(r.choice(['"bob k"', '"a"', '""'] + ESCAPED_PHRASES)))
+        if x < 0.78:
+            return self.fin(T.Proximity(self.fin(T.Phrase(r.choice(['"bob k"', '"x y z"'] + ESCAPED_PHRASES))),
+                                        r.choice([1, 2, None])))
+        if x < 0.9:
+            return self.fin(T.Fuzzy(self.fin(T.Word(r.choice(["bob", "tall"] + ESCAPED_WORDS[:6]))),
+                                    r.choice([1, 2, None])))
+        return self.fin(T.Range(T.Word("1"), T.Word(r.choice(["5", "*"])), r.random() < 0.5, True))
+
+    def field(self):
+        T, r = self.T, self.r
+        parent = r.choice([None, None, "author", "author", "editor"])
+        if parent is None:
+            return self.fin(T.SearchField(r.choice(["name", "tag", "bio"]), self.term()))
+        leaf = r.choice(sorted(HOMONYM_VOCAB[parent]))
+        x = r.random()
+        if x < 0.3:
+            return self.fin(T.SearchField(parent + "." + leaf, self.term()))
+        inner = self.fin(T.SearchField(leaf, self.term()))
+        if x < 0.45:
+            return self.fin(T.SearchField(parent, inner))
+        if x < 0.7:
+            return self.fin(T.SearchField(parent, self.fin(T.FieldGroup(inner))))
+        other = self.fin(T.SearchField(r.choice(sorted(HOMONYM_VOCAB[parent])), self.term()))
+        k = r.choice([T.AndOperation, T.OrOperation, T.UnknownOperation])
+        return self.fin(T.SearchField(parent, self.fin(T.FieldGroup(self.fin(k(inner, other))))))
+
+    def tree(self, depth):
+        T, r = self.T, self.r
+        if depth <= 0 or r.random() < 0.3:
+            return self.field()
+        kind = r.choice(["op", "op", "op", "not", "group", "boost"])
+        if kind == "op":
+            k = r.choice([T.AndOperation, T.OrOperation, T.UnknownOperation, T.BoolOperation])
+            ops = []
+            for _ in range(r.randrange(2, 4)):
+                o = self.tree(depth - 1)
+                if isinstance(o, T.BaseOperation):
+                    o = self.fin(T.Group(o))
+                ops.append(o)
+            return self.fin(k(*ops))
+        if kind == "not":
+            return self.fin(r.choice([T.Not, T.Prohibit, T.Plus])(self.field()))
+        if kind == "group":
+            return self.fin(T.Group(self.tree(depth - 1)))
+        return self.fin(T.Boost(self.field(), r.choice([2, "0.5", None])))
+
+
+def homonym_sessions(r, T, n_sessions):
+    """[(cfg, [tree, ...], kind)]: one builder instance per list.  The parsed corpus under every configuration in
+    the written order, reversed and shuffled (which homonymous field the instance meets first must not matter),
+    then random sessions"""
+    from luqum.parser import parser
+    g = HomonymGen(r, T)
+    sessions = []
+    for cfg in HOMONYM_CONFIGS:
+        sessions.append((cfg, [parser.parse(q) for q in HOMONYM_QUERIES], "homonym-corpus"))
+        sessions.append((cfg, [parser.parse(q) for q in reversed(HOMONYM_QUERIES)], "homonym-corpus-reversed"))
+        again = [parser.parse(q) for q in HOMONYM_QUERIES]
+        r.shuffle(again)
+        sessions.append((cfg, again, "homonym-corpus-shuffled"))
+    for _ in range(n_sessions):
+        cfg = r.choice(HOMONYM_CONFIGS)
+        sessions.append((cfg, [g.tree(r.randrange(0, 3)) for _ in range(r.randrange(2, 9))], "homonym-random"))
+    return sessions
+
+
+def escaped_sessions(r, T, n_sessions):
+    """[(cfg, [tree, ...], kind)]: every escaped phrase / word as a leaf value on the default field, on an analysed
+    field, on a not analysed field, with and without ~ and ^, under fixed and random configurations"""
+    cfgs = [{}, {"not_analyzed_fields": ["ref", "text"]}, {"not_analyzed_fields": ["ref"], "default_operator": "must",
+            "field_options": {"title": {"match_type": "match", "boost": 2}, "body": {"type": "phrase_prefix"}}},
+            {"match_word_as_phrase": True, "not_analyzed_fields": ["ref"]}]
+    sessions = []
+
+    def wrap(leaf, i):
+        if i % 5 == 0:
+            return leaf
+        f = ["body", "ref", "title", "a.b"][i % 4]
+        return T.SearchField(f, leaf)
+    for ci, cfg in enumerate(cfgs):
+        trees = []
+        for i, p in enumerate(ESCAPED_PHRASES):
+            trees.append(wrap(T.Phrase(p), i + ci))
+            trees.append(wrap(T.Boost(T.Proximity(T.Phrase(p), 2), 3), i + ci + 1))
+            trees.append(T.AndOperation(T.Phrase(p), T.SearchField("ref", T.Phrase(p))))
+        for i, w in enumerate(ESCAPED_WORDS):
+            trees.append(wrap(T.Word(w), i + ci))
+            trees.append(wrap(T.Fuzzy(T.Word(w), 1), i + ci + 2))
+        for k in range(0, len(trees), 8):
+            sessions.append((cfg, trees[k:k + 8], "escaped-corpus"))
+    g = EsGen(r, T)
+    for _ in range(n_sessions):
+        cfg = gen_config(r)
+        trees = []
+        for _ in range(r.randrange(2, 8)):
+            t = g.tree(r.randrange(0, 4))
+            for _, n in gentree.all_nodes(t):     # replace leaf values by escaped ones
+                if type(n) is T.Word and r.random() < 0.5:
+                    n.value = r.choice(ESCAPED_WORDS)
+                elif type(n) is T.Phrase and r.random() < 0.7:
+                    n.value = r.choice(ESCAPED_PHRASES)
+            trees.append(t)
+        sessions.append((cfg, trees, "escaped-random"))
+    return sessions
